@@ -33,7 +33,7 @@ def mE(d):
 # name -> dict(cls: 'free'|'general', conv: 'fwd' (meas = E ref) | 'inv' (meas = E^T ref), tilt: bool)
 TABLE = {
     "TRIAD/rotmat/NED": ("free", "fwd"), "TRIAD/rotmat/ENU": ("free", "fwd"), "TRIAD/quaternion/NED": ("general", "fwd"),
-    "TRIAD/quaternion/ENU": ("general", "fwd"),
+    "TRIAD/quaternion/ENU": ("general", "fwd"), "TRIAD/rotmat/NED[references assigned]": ("free", "fwd"),
     "Davenport": ("free", "inv"), "QUEST": ("general", "inv"),
     "FLAE/eig": ("free", "inv"), "FLAE/symbolic": ("general", "inv"), "FLAE/newton": ("general", "inv"),
     "OLEQ/NED": ("general", "inv"), "OLEQ/ENU": ("general", "inv"),
@@ -41,6 +41,7 @@ TABLE = {
     "SAAM": ("general", "fwd"), "FAMC": ("general", "inv"), "FQA": ("general", "inv"),
     "Tilt/quaternion": ("free", "inv"), "Tilt/rotmat": ("free", "inv"), "Tilt/angles": ("free", "inv"), "Tilt/acc-only": ("free", "inv"),
     "AQUA.estimate/am": ("free", "fwd"), "AQUA.estimate/acc": ("free", "fwd"), "AQUA(acc,mag)": ("free", "fwd"),
+    "AQUA.init_q/am": ("free", "fwd"), "AQUA.init_q/am[object built with q0]": ("free", "fwd"), "AQUA.estimate/am[object built with q0]": ("free", "fwd"),
     "ecompass/NED/rotmat": ("free", "inv"), "ecompass/ENU/rotmat": ("free", "inv"), "ecompass/NED/quaternion": ("general", "inv"),
     "ecompass/ENU/quaternion": ("general", "inv"), "ecompass/NED/rpy": ("general", "inv"), "ecompass/NED/axisangle": ("general", "inv"),
     "am2DCM/ENU": ("free", "fwd"), "am2DCM/NED": ("free", "fwd"), "am2q/ENU": ("general", "inv"), "am2q/NED": ("general", "inv"),
@@ -182,6 +183,13 @@ def specs(dip_deg, seed, q_true=None, sgn=1.0):
         out["TRIAD/rotmat/" + fr] = (np.array(t.v1, float), np.array(t.v2, float), lambda a, m, fr=fr, mref=mref: F.TRIAD(v2=mref.copy(), frame=sp(fr)).estimate(a, m))
         out["TRIAD/quaternion/" + fr] = (np.array(t.v1, float), np.array(t.v2, float),
                                          lambda a, m, fr=fr, mref=mref: F.TRIAD(v2=mref.copy(), frame=sp(fr, 1)).estimate(a, m, sp("quaternion", 2)))
+        if fr == "NED":       # the route of TRIAD's docstring examples: references assigned to a default object after construction
+
+            def assigned(a, m, v1=np.array(t.v1, float), v2=np.array(t.v2, float)):
+                u = F.TRIAD()
+                u.v1, u.v2 = v1.copy(), v2.copy()
+                return u.estimate(a, m)
+            out["TRIAD/rotmat/NED[references assigned]"] = (np.array(t.v1, float), np.array(t.v2, float), assigned)
     dv = F.Davenport(magnetic_dip=dip_deg)
     out["Davenport"] = (np.array(dv.g_q, float), np.array(dv.m_q, float), lambda a, m: F.Davenport(magnetic_dip=dip_deg).estimate(a, m))
     qu = F.QUEST(magnetic_dip=dip_deg)
@@ -217,6 +225,11 @@ def specs(dip_deg, seed, q_true=None, sgn=1.0):
     out["Tilt/acc-only"] = (G, mN(d), lambda a, m: F.Tilt().estimate(a))
     out["AQUA.estimate/am"] = (G, mN(d), lambda a, m: F.AQUA().estimate(a, m))
     out["AQUA.estimate/acc"] = (G, mN(d), lambda a, m: F.AQUA().estimate(a))
+    # the alias of estimate(), also on an object configured with an initial attitude for its recursive use (the algebraic fix has no state to start from)
+    q_cfg = np.array([0.5, -0.5, 0.5, 0.5])
+    out["AQUA.init_q/am"] = (G, mN(d), lambda a, m: F.AQUA().init_q(a, m))
+    out["AQUA.init_q/am[object built with q0]"] = (G, mN(d), lambda a, m: F.AQUA(q0=q_cfg.copy()).init_q(a, m))
+    out["AQUA.estimate/am[object built with q0]"] = (G, mN(d), lambda a, m: F.AQUA(q0=q_cfg.copy()).estimate(a, m))
     out["AQUA(acc,mag)"] = (G, mN(d), lambda a, m: F.AQUA(np.array([a, a]), np.array([m, m])).Q[1])
     for fr, mref in (("NED", mN(d)), ("ENU", mE(d))):
         for rep in ("rotmat", "quaternion") + (("rpy", "axisangle") if fr == "NED" else ()):
